@@ -23,18 +23,19 @@ const ModPath = "github.com/magisterquis/curlrevshell"
 
 // Prog is the loaded program.
 type Prog struct {
-	Repo    string
-	Fset    *token.FileSet
-	Pkgs    []*packages.Package          /* Module packages, sorted by path. */
-	ByPath  map[string]*packages.Package /* Module packages by import path. */
-	SSA     *ssa.Program
-	SSAPkg  map[string]*ssa.Package /* By import path. */
-	AllPkgs int                     /* Number of packages seen, deps included. */
-	Overlay map[string][]byte       /* In-memory file replacements (self-test mutants). */
-	funcs   []*ssa.Function         /* Source functions of the module, anons included. */
-	Flat    *ssa.FlattenStats       /* What helper inlining did. */
-	Helpers []string                /* Helper functions folded into their callers. */
-	Devirt  int                     /* Interface calls resolved to the one implementing type. */
+	Repo     string
+	Fset     *token.FileSet
+	Pkgs     []*packages.Package          /* Module packages, sorted by path. */
+	ByPath   map[string]*packages.Package /* Module packages by import path. */
+	SSA      *ssa.Program
+	SSAPkg   map[string]*ssa.Package /* By import path. */
+	AllPkgs  int                     /* Number of packages seen, deps included. */
+	Overlay  map[string][]byte       /* In-memory file replacements (self-test mutants). */
+	funcs    []*ssa.Function         /* Source functions of the module, anons included. */
+	Flat     *ssa.FlattenStats       /* What helper inlining did. */
+	Helpers  []string                /* Helper functions folded into their callers. */
+	Unrolled int                     /* Functions in which a loop over a literal table was unrolled. */
+	Devirt   int                     /* Interface calls resolved to the one implementing type. */
 }
 
 // LoadOpts tunes loading.
@@ -343,6 +344,27 @@ func (p *Prog) flatten() {
 		ssa.CutNoReturn(f, func(c *ssa.Call) bool { return isNoReturn(c) })
 	}
 	p.Flat = ssa.FlattenAll(tops, isHelper)
+	/* Loops over small literal tables are unrolled; calls through the
+	table's function values become static, and are folded in turn. */
+	for round := 0; round < 3; round++ {
+		unrolled := false
+		for _, f := range tops {
+			if !isHelper(f) && ssa.UnrollTableLoops(f, 8) {
+				unrolled = true
+				p.Unrolled++
+				if "" != os.Getenv("CRS_FLATDEBUG") {
+					fmt.Fprintf(os.Stderr, "UNROLLED in %s\n", f)
+				}
+			}
+		}
+		if !unrolled {
+			break
+		}
+		more := ssa.FlattenAll(tops, isHelper)
+		p.Flat.Inlined += more.Inlined
+		p.Flat.GoTurned += more.GoTurned
+		p.Flat.Bound += more.Bound
+	}
 	/* Values carried in local struct variables are used where they end up. */
 	for _, f := range tops {
 		if !isHelper(f) {
